@@ -198,3 +198,41 @@ Example C04_to_rows_means_flow_nonvacuous :
   /\ ref_size ex_cycle = Some 3%nat.
 Proof. exact ex_cycle_exportable. Qed.
 Print Assumptions C04_to_rows_means_flow_nonvacuous.
+
+(* THE FAMILY (MeansFamily.exportable, decidable; design.d/C04.md "Exporter means the flow"): every node is
+     - a node without router with >= 1 actions of the sheet vocabulary, each of which the reference payload reading gives back
+       (action_ok: e.g. no empty attachment, one group per group action), or
+     - a switch router without actions: wait_for_response (with or without timeout / No Response category), split_by_value,
+       split_by_group; tests with at most one argument (none for the no-argument tests), pairwise different; every case has a
+       category of its own list; categories with distinct uuids and (outside group splits) distinct names; cases whose
+       category leads nowhere are allowed (loose_exit rows), or
+     - a random router without actions (buckets with distinct non-empty names), or
+     - an enter-flow / webhook / airtime node in the shape the sheet rows stand for;
+   node uuids are distinct; and - the one dynamic condition, which is the open finding case-order-follows-row-order - in the
+   exported sheet the edges carrying the cases of each router occur in the order of the cases (order_ok, computed on the export).
+   Premises on the tree: the four export repairs (regenerated probes).  With strip_uuids: one action per node.
+   NOT covered (what is missing for the full statement): routers whose case edges the depth-first order permutes (open finding);
+   has_group tests outside group splits (RowSem reads them with one argument); tests with two arguments, a case on the default /
+   No Response category, two categories of one name (not expressible / not distinguishable in the sheet format); switch routers
+   with actions; multi-action nodes under strip_uuids (their rows become a chain of nodes: trace-equal, not proved). *)
+Theorem C04_to_rows_means_flow_partial :
+  loose_exit_rows = true -> pairs_follow_cases = true -> split_rows_carry_save_name = true -> group_split_without_cases_exports = true ->
+  forall (U : Type) (ueqb : U -> U -> bool), (forall a b, ueqb a b = true <-> a = b) ->
+  forall (ustr : U -> str), (forall a b, ustr a = ustr b -> a = b) -> (forall a, ustr a <> []) ->
+  forall numbered strip_uuids (ns : list (node U)),
+    exportable U ueqb ns = true -> (strip_uuids = true -> single_rows U ns = true) ->
+    forall rows, to_rows ueqb numbered ns = Ok rows ->
+    exists ref, rowsem nab (abs_rows U ustr strip_uuids rows) = Some ref
+      /\ (forall t, traces (flow_of U ustr ns) t -> exists t', traces ref t' /\ Forall2 (ematch sexp (fun a b => smatch b a)) t t')
+      /\ (forall t, traces ref t -> exists t', traces (flow_of U ustr ns) t' /\ Forall2 (ematch sexp smatch) t t').
+Proof. exact to_rows_means_flow_partial. Qed.
+Print Assumptions C04_to_rows_means_flow_partial.
+
+(* non-vacuity: a wait_for_response router with a timeout, three cases (one leading nowhere: loose_exit row), a join, a cycle
+   through the default branch, a random router with an unconnected bucket and a webhook node: in the family, nine rows, five
+   reference nodes, and the statement evaluates to "holds" (4) in both export modes *)
+Example C04_to_rows_means_flow_routers_nonvacuous :
+  exportable N N.eqb ex_router = true /\ export_skel ex_router = Ok ex_router_rows /\ ref_size ex_router = Some 5%nat
+  /\ means_check N N.eqb ustrN false false ex_router = 4%N /\ means_check N N.eqb ustrN true true ex_router = 4%N.
+Proof. exact ex_router_exportable. Qed.
+Print Assumptions C04_to_rows_means_flow_routers_nonvacuous.
